@@ -121,9 +121,13 @@ func Base(d string) gm.Schema {
 			gm.Index{Name: "idx_users_bio", Parts: []gm.Part{{Col: "bio", OpClass: "text_ops"}}})
 		// a column of a type Atlas does not know (an extension type)
 		s.Tables[1].Cols = append(s.Tables[1].Cols, gm.Col{Name: "aext", Type: "citext", Null: true})
+		// a serial column as inspected (it knows its sequence)
+		s.Tables[2].Cols = append(s.Tables[2].Cols, gm.Col{Name: "pserial", Type: "serial:posts_pserial_seq"})
 	case "sqlite":
 		s.Tables[0].Indexes = append(s.Tables[0].Indexes, gm.Index{Name: "idx_users_score", Parts: []gm.Part{{Col: "score"}}, Where: `"score" > 0`})
 		s.Tables[3].WithoutRowID = true
+		// two foreign keys written without CONSTRAINT names: the inspection labels them by position ("0", "1")
+		s.Tables[4].FKs = []gm.FK{{Name: "0", Cols: []string{"lid"}, RefTable: "users", RefCols: []string{"id"}}, {Name: "1", Cols: []string{"lid"}, RefTable: "accounts", RefCols: []string{"id"}}}
 	}
 	return s
 }
@@ -409,7 +413,9 @@ func AllSites(d string, s gm.Schema) []Site {
 			c := t.Col(cn)
 			key := T + ".col:" + cn
 			add(EditRef{Kind: "drop-column", Table: T, Obj: cn}, key)
-			add(EditRef{Kind: "modify-null", Table: T, Obj: cn}, key)
+			if !strings.Contains(c.Type, "serial") { // a serial column is NOT NULL by definition (the planner refuses otherwise)
+				add(EditRef{Kind: "modify-null", Table: T, Obj: cn}, key)
+			}
 			newType := ty.big
 			switch {
 			case d == "sqlite" && (c.Type == ty.i || c.Type == ty.big):
@@ -419,6 +425,9 @@ func AllSites(d string, s gm.Schema) []Site {
 			}
 			if c.Default == "" && c.Charset == "" { // an integer column cannot keep a CHARSET
 				add(EditRef{Kind: "modify-type", Table: T, Obj: cn, Arg: newType}, key)
+			}
+			if d == "postgres" && c.Type == ty.i && c.Default == "" {
+				add(EditRef{Kind: "modify-type", Table: T, Obj: cn, Arg: "serial"}, key) // an integer column becomes a serial one
 			}
 			if d == "postgres" && c.Type == "citext" {
 				add(EditRef{Kind: "modify-type", Table: T, Obj: cn, Arg: "ltree"}, key) // from one unknown type to another
